@@ -65,12 +65,18 @@ func EnumCase(path, in string, data interface{}, enum interface{}, caseSensitive
 				continue
 			}
 			expectedValue := reflect.ValueOf(data)
-			if expectedValue.IsValid() && expectedValue.Type().ConvertibleTo(actualType) {
-				// Attempt comparison after type conversion
-				if reflect.DeepEqual(expectedValue.Convert(actualType).Interface(), enumValue) {
+			if expectedValue.IsValid() && expectedValue.CanConvert(actualType) {
+				// Attempt comparison after type conversion. Only a lossless conversion counts:
+				// 1.5 is not the integer 1, the integer 65 is not the string "A".
+				converted := expectedValue.Convert(actualType)
+				if converted.CanConvert(expectedValue.Type()) &&
+					reflect.DeepEqual(converted.Convert(expectedValue.Type()).Interface(), data) &&
+					reflect.DeepEqual(converted.Interface(), enumValue) {
 					return nil
 				}
 			}
+		} else if enumValue == nil {
+			return nil // nil is a member of an enum that lists nil
 		}
 		values = append(values, enumValue)
 	}
